@@ -8,7 +8,9 @@ import Csproto.Model.GenMap
   `V.msg [.one key, .one value] []` per entry, IN THE ORDER `range` VISITS THEM (arbitrary).  `Size`
   (`sizeMsgList`) adds `SizeOfTagKey(n) + SizeOfVarint(keySize + valueSize) + keySize + valueSize` per entry
   and `MarshalTo` (`opsMsgList`) writes key `n`, that length, field 1, field 2 — both ALWAYS written
-  (`Card.always`), a message-typed value nested.
+  (`Card.always`), a message-typed value nested.  An entry of a message-valued map whose value is a nil pointer
+  (`V.msg [.one key, .unset] []`, `nilEntry`) is passed over by both (`if v != nil` / `if v == nil { continue }`):
+  it has no record in the tree below, and `canonFs` — the message after the round trip — does not hold it.
 
   This file: the record tree of such a message (`recsFieldsM`: a map entry is an `NRec.map` record), its
   well-formedness in the sense of `unmarshal_nested` (`recs_okM`), and the round trip
@@ -46,7 +48,9 @@ def recsVM (S : Schema) (md : MD) : V → List NRec
   | _ => []
 def recsListM (S : Schema) (idx : Nat) (fd : FD) (i : Nat) : List V → List NRec
   | [] => []
-  | v :: vs => elemRec idx fd i (recsVM S (S.md i) v) :: recsListM S idx fd i vs
+  | v :: vs =>
+    if fd.card.isMap && nilEntry (S.md i) v then recsListM S idx fd i vs
+    else elemRec idx fd i (recsVM S (S.md i) v) :: recsListM S idx fd i vs
 end
 
 theorem elemRec_of_not_map {fd : FD} (h : fd.card ≠ .map) (idx i : Nat) (sub : List NRec) :
@@ -86,8 +90,10 @@ theorem wires_recsListM (S : Schema) (idx : Nat) (fd : FD) (i : Nat) : ∀ (vs :
     wiresN (recsListM S idx fd i vs) = wiresN (recsList S idx fd i vs)
   | [] => by simp [recsListM, recsList]
   | v :: vs => by
-    simp only [recsListM, recsList, wiresN_cons, elemRec_wire, NRec.wire, wires_recsVM S (S.md i) v,
-      wires_recsListM S idx fd i vs]
+    by_cases hn : (fd.card.isMap && nilEntry (S.md i) v) = true
+    · simp only [recsListM, recsList, if_pos hn, wires_recsListM S idx fd i vs]
+    · simp only [recsListM, recsList, if_neg hn, wiresN_cons, elemRec_wire, NRec.wire, wires_recsVM S (S.md i) v,
+        wires_recsListM S idx fd i vs]
 end
 
 /-- **what `Marshal` writes is the record tree with map-entry records** -/
@@ -115,10 +121,41 @@ def canonKey (emd : MD) (e : V) : V := decodedV (keyKind emd) (entryKey e)
 def KeysDistinct (emd : MD) (es : List V) : Prop :=
   es.Pairwise fun a b => keyEq (canonKey emd a) (canonKey emd b) = false
 
-/-- an entry has a key and a value (a nil message value is not an entry the generated code writes) -/
+/-- an entry has a key and a value -/
 def EntrySet : V → Prop
   | .msg fs _ => ∀ f ∈ fs, f ≠ F.unset
   | _ => False
+
+/-- an entry as a Go map holds it: key and value, or — in a message-valued map — key and nil pointer (which
+    the generated code does not write) -/
+def EntryOK (emd : MD) (e : V) : Prop := EntrySet e ∨ nilEntry emd e = true
+
+/-- the entries the generated code writes: all of a repeated field (`sk = false`), the non-nil-valued ones of a
+    map field (`sk = true`) -/
+def liveVs (md : MD) (sk : Bool) (vs : List V) : List V := vs.filter fun v => !(sk && nilEntry md v)
+
+theorem liveVs_false (md : MD) (vs : List V) : liveVs md false vs = vs := by simp [liveVs]
+
+/-- without nil-valued entries nothing is dropped -/
+theorem liveVs_of_set (md : MD) (sk : Bool) (vs : List V) (h : ∀ e ∈ vs, EntrySet e) : liveVs md sk vs = vs := by
+  unfold liveVs
+  rw [List.filter_eq_self]
+  intro e he
+  have hs := h e he
+  cases e with
+  | msg fs u =>
+    have : nilEntry md (.msg fs u) = false := by
+      simp only [nilEntry, Bool.and_eq_false_iff]
+      right
+      match fs, hs with
+      | [], _ => rfl
+      | [_], _ => rfl
+      | _ :: .unset :: _, hs => exact absurd rfl (hs .unset (by simp))
+      | _ :: .one _ :: _, _ => rfl
+      | _ :: .many _ :: _, _ => rfl
+    simp [this]
+  | num _ => simp [EntrySet] at hs
+  | bs _ => simp [EntrySet] at hs
 
 mutual
 def WFsM (S : Schema) : MD → List F → Prop
@@ -135,7 +172,7 @@ def WFfM (S : Schema) (fd : FD) : F → Prop
     match fd.ty with
     | .sc _ => ShapeOK fd (.many vs) ∧ ValOK fd (.many vs) ∧ CleanVs vs
     | .msg i =>
-      (fd.card = .list ∨ (fd.card = .map ∧ (∀ e ∈ vs, EntrySet e) ∧ KeysDistinct (S.md i) vs)) ∧
+      (fd.card = .list ∨ (fd.card = .map ∧ (∀ e ∈ vs, EntryOK (S.md i) e) ∧ KeysDistinct (S.md i) vs)) ∧
         ValidTag fd.num ∧ WFvsM S (S.md i) vs
 def WFvM (S : Schema) (md : MD) : V → Prop
   | .msg fs unk => unk = [] ∧ WFsM S md fs ∧ (wiresN (recsFieldsM S 0 md fs)).length ≤ maxFieldLen ∧ Excl md fs
@@ -247,7 +284,7 @@ theorem recList_okM (S : Schema) (hS : SchemaOKM S) (mdAll : MD) (fd : FD) (idx 
   | v :: vs, hwf => by
     simp only [WFvsM] at hwf
     have hnm : fd.card ≠ .map := by simp [hl]
-    simp only [recsListM, elemRec, hnm, if_false, OKs, NRec.OK]
+    simp only [recsListM, isMap_of_ne hnm, Bool.false_and, Bool.false_eq_true, elemRec, hnm, if_false, OKs, NRec.OK]
     exact ⟨⟨hfind, hty, htag, hnm, recVM_len S (S.md i) v hwf.1, recV_okM S hS (S.md i) v hwf.1 ⟨i, rfl⟩⟩,
       recList_okM S hS mdAll fd idx i hfind hty htag hl vs hwf.2⟩
 /-- the entries of a map field -/
@@ -258,7 +295,11 @@ theorem recMap_okM (S : Schema) (hS : SchemaOKM S) (mdAll : MD) (fd : FD) (idx i
   | [], _ => by simp [recsListM, OKs]
   | v :: vs, hwf => by
     simp only [WFvsM] at hwf
-    simp only [recsListM, elemRec, hm, if_true, OKs, NRec.OK]
+    by_cases hn : (fd.card.isMap && nilEntry (S.md i) v) = true
+    · simp only [recsListM, if_pos hn]
+      exact recMap_okM S hS mdAll fd idx i hfind hty htag hm kk vty hemd vs hwf.2
+    simp only [recsListM, if_neg hn]
+    simp only [elemRec, hm, if_true, OKs, NRec.OK]
     refine ⟨⟨hfind, hty, htag, trivial, recVM_len S (S.md i) v hwf.1, ?_⟩,
       recMap_okM S hS mdAll fd idx i hfind hty htag hm kk vty hemd vs hwf.2⟩
     have h1 := hwf.1
@@ -330,6 +371,19 @@ theorem foldE_append (S : Schema) (emd : MD) : ∀ (a b : List NRec) (efs efs' :
     | err => rw [hr] at h; cases h
     | panic => rw [hr] at h; cases h
 
+/-- a repeated / map field that writes nothing (it is empty, or a map all of whose values are nil pointers) reads
+    back empty -/
+theorem recsListM_nil_canon (S : Schema) (idx : Nat) (fd : FD) (i : Nat) : ∀ (vs : List V),
+    recsListM S idx fd i vs = [] → canonVs S (S.md i) fd.card.isMap vs = []
+  | [], _ => rfl
+  | v :: vs, h => by
+    by_cases hn : (fd.card.isMap && nilEntry (S.md i) v) = true
+    · simp only [recsListM, if_pos hn] at h
+      simp only [canonVs, if_pos hn]
+      exact recsListM_nil_canon S idx fd i vs h
+    · simp only [recsListM, if_neg hn] at h
+      cases h
+
 /-- a field that writes nothing reads back as the reset field -/
 theorem recsFieldM_nil_canon (S : Schema) (idx : Nat) (fd : FD) (f : F) (hwf : WFfM S fd f)
     (h : recsFieldM S idx fd f = []) : canonF S fd f = initField fd := by
@@ -370,12 +424,10 @@ theorem recsFieldM_nil_canon (S : Schema) (idx : Nat) (fd : FD) (f : F) (hwf : W
     | msg i =>
       simp only [hty] at hwf
       simp only [recsFieldM, hty] at h
-      cases vs with
-      | nil =>
-        rcases hwf.1 with hl | ⟨hm, _, _⟩
-        · simp [canonF, hty, canonVs, initField, hl]
-        · simp [canonF, hty, canonVs, initField, hm]
-      | cons v vs => simp [recsListM] at h
+      have hcv := recsListM_nil_canon S idx fd i vs h
+      rcases hwf.1 with hl | ⟨hm, _, _⟩
+      · simp only [canonF, hty, hcv]; simp [initField, hl]
+      · simp only [canonF, hty, hcv]; simp [initField, hm]
 
 theorem recsFieldsM_nil_canon (S : Schema) : ∀ (base : Nat) (md : MD) (fs : List F), WFsM S md fs →
     recsFieldsM S base md fs = [] → canonFs S md fs = md.map initField
@@ -567,15 +619,17 @@ theorem fold_fieldM (S : Schema) (hS : SchemaOKM S) (mdAll : MD) (idx : Nat) (fd
       rcases hc with hlist | ⟨hm, hset, hdist⟩
       · have hinit : initField fd = .many [] := by simp [initField, hlist]
         rw [hinit] at hcur
+        rw [isMap_list hlist] at ho
         have := fold_listM S hS mdAll idx fd i (fun g => by simp [hlist]) hlist vs ops [] fs unk hlt hcur hvs ho
-        simpa [recsFieldM, hty, canonF] using this
+        simpa [recsFieldM, hty, canonF, isMap_list hlist] using this
       · obtain ⟨e, kk, vty, hte, hemd⟩ := hmap hm
         have hie : i = e := by rw [hty] at hte; exact Ty.msg.inj hte
         subst hie
         have hinit : initField fd = .many [] := by simp [initField, hm]
         rw [hinit] at hcur
+        rw [isMap_of_eq hm] at ho
         have := fold_mapM S hS mdAll idx fd i hm kk vty hemd vs ops [] fs unk hlt hcur hvs hset hdist (by simp) ho
-        simpa [recsFieldM, hty, canonF] using this
+        simpa [recsFieldM, hty, canonF, isMap_of_eq hm] using this
 termination_by structural f => f
 
 /-- a nested message: decoding its record tree gives its canonical form -/
@@ -614,21 +668,21 @@ termination_by structural v => v
 /-- the elements of a repeated message field, appended one by one -/
 theorem fold_listM (S : Schema) (hS : SchemaOKM S) (mdAll : MD) (idx : Nat) (fd : FD) (i : Nat) (hno : ∀ g, fd.card ≠ .oneof g)
     (hlist : fd.card = .list) : ∀ (vs : List V) (ops : List EncOp) (acc : List V) (fs : List F) (unk : Bytes),
-    idx < fs.length → fs.getD idx .unset = .many acc → WFvsM S (S.md i) vs → opsMsgList S (S.md i) fd.num vs = .ok ops →
-    foldN S mdAll (recsListM S idx fd i vs) (fs, unk) = .ok (fs.set idx (.many (acc ++ canonVs S (S.md i) vs)), unk)
+    idx < fs.length → fs.getD idx .unset = .many acc → WFvsM S (S.md i) vs → opsMsgList S (S.md i) fd.num false vs = .ok ops →
+    foldN S mdAll (recsListM S idx fd i vs) (fs, unk) = .ok (fs.set idx (.many (acc ++ canonVs S (S.md i) false vs)), unk)
   | [], _, acc, fs, unk, hlt, hcur, _, _ => by
     simp [recsListM, foldN, canonVs, set_getD_self fs idx _ hlt hcur]
   | v :: vs, ops, acc, fs, unk, hlt, hcur, hwf, ho => by
     simp only [WFvsM] at hwf
-    simp only [opsMsgList] at ho
+    simp only [opsMsgList, Bool.false_and, Bool.false_eq_true, if_false] at ho
     have hnm : fd.card ≠ .map := by simp [hlist]
     cases hb : bytesMsgV S (S.md i) v with
     | ok body =>
       rw [hb] at ho
-      cases hr : opsMsgList S (S.md i) fd.num vs with
+      cases hr : opsMsgList S (S.md i) fd.num false vs with
       | ok rest =>
         obtain ⟨cfs, hcv, hd⟩ := fold_msgVM S hS (S.md i) ⟨i, rfl⟩ v body hwf.1 hb
-        simp only [recsListM, elemRec_of_not_map hnm, foldN, NRec.applyN_msg, hd, assign_plain mdAll fs idx fd _ hno, hlist, hcur, appendTo]
+        simp only [recsListM, isMap_of_ne hnm, Card.isMap, Bool.false_and, Bool.false_eq_true, if_false, elemRec_of_not_map hnm, foldN, NRec.applyN_msg, hd, assign_plain mdAll fs idx fd _ hno, hlist, hcur, appendTo]
         have ih := fold_listM S hS mdAll idx fd i hno hlist vs rest (acc ++ [V.msg cfs []])
           (fs.set idx (.many (acc ++ [V.msg cfs []]))) unk
           (by simpa using hlt) (by simp [List.getD_eq_getElem?_getD, List.getElem?_set_self hlt]) hwf.2 hr
@@ -645,30 +699,41 @@ termination_by structural vs => vs
 theorem fold_mapM (S : Schema) (hS : SchemaOKM S) (mdAll : MD) (idx : Nat) (fd : FD) (i : Nat)
     (hm : fd.card = .map) (kk : SK) (vty : Ty) (hemd : S.md i = entryMD kk vty) :
     ∀ (vs : List V) (ops : List EncOp) (acc : List V) (fs : List F) (unk : Bytes),
-    idx < fs.length → fs.getD idx .unset = .many acc → WFvsM S (S.md i) vs → (∀ e ∈ vs, EntrySet e) →
+    idx < fs.length → fs.getD idx .unset = .many acc → WFvsM S (S.md i) vs → (∀ e ∈ vs, EntryOK (S.md i) e) →
     KeysDistinct (S.md i) vs → (∀ x ∈ acc, ∀ e ∈ vs, keyEq (entryKey x) (canonKey (S.md i) e) = false) →
-    opsMsgList S (S.md i) fd.num vs = .ok ops →
-    foldN S mdAll (recsListM S idx fd i vs) (fs, unk) = .ok (fs.set idx (.many (acc ++ canonVs S (S.md i) vs)), unk)
+    opsMsgList S (S.md i) fd.num true vs = .ok ops →
+    foldN S mdAll (recsListM S idx fd i vs) (fs, unk) = .ok (fs.set idx (.many (acc ++ canonVs S (S.md i) true vs)), unk)
   | [], _, acc, fs, unk, hlt, hcur, _, _, _, _, _ => by
     simp [recsListM, foldN, canonVs, set_getD_self fs idx _ hlt hcur]
   | v :: vs, ops, acc, fs, unk, hlt, hcur, hwf, hset, hdist, hfresh, ho => by
     simp only [WFvsM] at hwf
-    simp only [opsMsgList] at ho
+    simp only [opsMsgList, Bool.true_and] at ho
     have hno : ∀ g, fd.card ≠ .oneof g := by intro g; simp [hm]
     obtain ⟨hdv, hdvs⟩ := List.pairwise_cons.mp hdist
+    by_cases hn : nilEntry (S.md i) v = true
+    · -- the value is a nil pointer: no call, no record, no entry after the round trip
+      rw [if_pos hn] at ho
+      simp only [recsListM, canonVs, isMap_of_eq hm, Bool.true_and, if_pos hn]
+      exact fold_mapM S hS mdAll idx fd i hm kk vty hemd vs ops acc fs unk hlt hcur hwf.2
+        (fun e he => hset e (by simp [he])) hdvs (fun x hx e he => hfresh x hx e (by simp [he])) ho
+    rw [if_neg hn] at ho
+    have hsetv : EntrySet v := by
+      rcases hset v (by simp) with h | h
+      · exact h
+      · exact absurd h hn
     cases hb : bytesMsgV S (S.md i) v with
     | ok body =>
       rw [hb] at ho
-      cases hr : opsMsgList S (S.md i) fd.num vs with
+      cases hr : opsMsgList S (S.md i) fd.num true vs with
       | ok rest =>
         have hv1 := hwf.1
         have hb' := hb
         rw [hemd] at hv1 hb'
-        obtain ⟨cfs, hcv, hd, hfill, hkey⟩ := fold_entryM S hS kk vty v body hv1 (hset v (by simp)) hb'
+        obtain ⟨cfs, hcv, hd, hfill, hkey⟩ := fold_entryM S hS kk vty v body hv1 hsetv hb'
         rw [← hemd] at hcv hd hfill hkey
         have hfr : ∀ x ∈ acc, keyEq (entryKey x) (entryKey (V.msg cfs [])) = false := by
           intro x hx; rw [hkey]; exact hfresh x hx v (by simp)
-        simp only [recsListM, elemRec_of_map hm, foldN, NRec.applyN, hd, hfill, hcur,
+        simp only [recsListM, isMap_of_eq hm, Bool.true_and, if_neg hn, elemRec_of_map hm, foldN, NRec.applyN, hd, hfill, hcur,
           assign_plain mdAll fs idx fd _ hno, mapInsert_fresh _ acc hfr]
         have ih := fold_mapM S hS mdAll idx fd i hm kk vty hemd vs rest (acc ++ [V.msg cfs []])
           (fs.set idx (.many (acc ++ [V.msg cfs []]))) unk
@@ -682,7 +747,7 @@ theorem fold_mapM (S : Schema) (hS : SchemaOKM S) (mdAll : MD) (idx : Nat) (fd :
               subst hxe
               rw [hkey]; exact hdv e he) hr
         rw [ih]
-        simp [canonVs, List.set_set, hcv]
+        simp [canonVs, hn, List.set_set, hcv]
       | err => rw [hr] at ho; cases ho
       | panic => rw [hr] at ho; cases ho
     | err => rw [hb] at ho; cases ho
@@ -867,9 +932,16 @@ theorem recsM_len_eq_size (S : Schema) (md : MD) (fs : List F) (ops : List EncOp
 
 /-! ### order independence: the decoded map as a finite map -/
 
-theorem canonVs_eq_map (S : Schema) (md : MD) : ∀ (vs : List V), canonVs S md vs = vs.map (canonV S md)
+/-- the entries after the round trip: the (normalised) entries that were written, in the order written -/
+theorem canonVs_eq_map (S : Schema) (md : MD) (sk : Bool) : ∀ (vs : List V),
+    canonVs S md sk vs = (liveVs md sk vs).map (canonV S md)
   | [] => rfl
-  | v :: vs => by simp [canonVs, canonVs_eq_map S md vs]
+  | v :: vs => by
+    have ih := canonVs_eq_map S md sk vs
+    unfold liveVs at ih ⊢
+    cases hn : (sk && nilEntry md v)
+    · simp only [canonVs, List.filter_cons, hn, ih, Bool.not_false, Bool.false_eq_true, ↓reduceIte, List.map_cons]
+    · simp only [canonVs, List.filter_cons, hn, ih, Bool.not_true, Bool.false_eq_true, ↓reduceIte]
 
 /-- two Go values of one message type that differ at most in the order in which the entries of their map
     fields are listed (two iteration orders of the same maps) -/
@@ -901,8 +973,9 @@ theorem canonFs_mapsPermuted (S : Schema) (md : MD) (fs gs : List F) (hl : md.le
       exact ⟨es1.map (decodedV (kindOf fd)), es2.map (decodedV (kindOf fd)), by simp [canonF, hty, canonField],
         by simp [canonF, hty, canonField], hp.map _⟩
     | msg i =>
-      refine ⟨canonVs S (S.md i) es1, canonVs S (S.md i) es2, by simp [canonF, hty], by simp [canonF, hty], ?_⟩
-      rw [canonVs_eq_map, canonVs_eq_map]; exact hp.map _
+      refine ⟨canonVs S (S.md i) fd.card.isMap es1, canonVs S (S.md i) fd.card.isMap es2, by simp [canonF, hty],
+        by simp [canonF, hty], ?_⟩
+      rw [canonVs_eq_map, canonVs_eq_map]; exact (hp.filter _).map _
 
 /-- `m[k]` on a map value held as an association list -/
 def mapGet (es : List V) (k : V) : Option V := (es.find? fun e => keyEq (entryKey e) k).map entryVal
@@ -966,20 +1039,34 @@ theorem entryKey_canonV (S : Schema) (kk : SK) (vty : Ty) (e : V) (hwf : WFvM S 
 
 /-- the decoded entries of a map field have pairwise distinct stored keys -/
 theorem storedKeys_canonVs (S : Schema) (kk : SK) (vty : Ty) : ∀ (es : List V), WFvsM S (entryMD kk vty) es →
-    (∀ e ∈ es, EntrySet e) → KeysDistinct (entryMD kk vty) es →
-    StoredKeysDistinct (canonVs S (entryMD kk vty) es)
+    (∀ e ∈ es, EntryOK (entryMD kk vty) e) → KeysDistinct (entryMD kk vty) es →
+    StoredKeysDistinct (canonVs S (entryMD kk vty) true es)
   | [], _, _, _ => by simp [canonVs, StoredKeysDistinct]
   | e :: es, hwf, hset, hd => by
     simp only [WFvsM] at hwf
     obtain ⟨hde, hdes⟩ := List.pairwise_cons.mp hd
     have ih := storedKeys_canonVs S kk vty es hwf.2 (fun x hx => hset x (by simp [hx])) hdes
-    simp only [canonVs, StoredKeysDistinct, List.pairwise_cons]
+    by_cases hn : nilEntry (entryMD kk vty) e = true
+    · simp only [canonVs, Bool.true_and, if_pos hn]; exact ih
+    have hsete : EntrySet e := by
+      rcases hset e (by simp) with h | h
+      · exact h
+      · exact absurd h hn
+    simp only [canonVs, Bool.true_and, if_neg hn, StoredKeysDistinct, List.pairwise_cons]
     refine ⟨?_, ih⟩
     intro x hx
     rw [canonVs_eq_map] at hx
-    obtain ⟨y, hy, rfl⟩ := List.mem_map.mp hx
+    obtain ⟨y, hy', rfl⟩ := List.mem_map.mp hx
+    have hy : y ∈ es := (List.mem_filter.mp hy').1
+    have hyn : nilEntry (entryMD kk vty) y = false := by
+      have := (List.mem_filter.mp hy').2
+      simpa using this
+    have hsety : EntrySet y := by
+      rcases hset y (by simp [hy]) with h | h
+      · exact h
+      · rw [hyn] at h; cases h
     have hwy : WFvM S (entryMD kk vty) y := by
-      clear ih hde hdes hd hx
+      clear ih hde hdes hd hx hy'
       induction es with
       | nil => simp at hy
       | cons z zs ihz =>
@@ -990,7 +1077,7 @@ theorem storedKeys_canonVs (S : Schema) (kk : SK) (vty : Ty) : ∀ (es : List V)
             rcases List.mem_cons.mp hx with rfl | h
             · simp
             · simp [h])) hy'
-    rw [entryKey_canonV S kk vty e hwf.1 (hset e (by simp)), entryKey_canonV S kk vty y hwy (hset y (by simp [hy]))]
+    rw [entryKey_canonV S kk vty e hwf.1 hsete, entryKey_canonV S kk vty y hwy hsety]
     exact hde y hy
 
 end Csproto.Gen
